@@ -85,7 +85,7 @@ class AMachine(Machine):
 
     def gen_knobs(self, rng):
         return {"maxline": rng.choice([1, 2, 3, 5, 8, 50, 50]), "quantum": rng.choice([0, 0, 1, 2, 3, 7]),
-                "cache_limit": rng.choice([3, 4, 6, 10, 10000, 10000]), "warm": rng.random() < 0.15}
+                "cache_limit": rng.choice([3, 4, 6, 10, 10000, 10000]), "warm": rng.random() < 0.15, "carry": rng.random() < 0.5}
 
     def gen(self, rng, steer):
         share = float(os.environ.get("VERIF_GCC_SHARE", self.gcc_share))
@@ -207,24 +207,27 @@ class AMachine(Machine):
             prog = a_sim.Program(cfg["arch"], cfg["program"])
             smc = "smc" in cfg["features"] or any(a[1] == "hw" and a[2] in ("code", "reload") for a in case["actions"])
             backends = ["python", "gcc"] if (self.both_backends and cfg["backend"] == "gcc") else [cfg["backend"]]
+            init_mem = None
+            if cfg["knobs"].get("warm") and cfg["knobs"].get("carry"):
+                init_mem = a_sim.carried_memory(cfg["arch"], prog, cfg["init_regs"])
             finals = {}
             for backend in backends:
                 c2 = dict(case, cfg=dict(cfg, backend=backend))
                 has_hw = any(a[1] == "hw" for a in case["actions"])
                 if has_hw:
                     # the run under test goes first here: make sure the program terminates at all
-                    a_sim.Reference(cfg["arch"], prog, cfg["init_regs"], smc)
+                    a_sim.Reference(cfg["arch"], prog, cfg["init_regs"], smc, None, init_mem)
                     run = a_sim.TestRun(self.pid, c2, prog, None, log, probes)
                     run.run()
                     stamps = {}
                     for d, addr, data in run.stamps:
                         stamps.setdefault(d, []).append((addr, data))
-                    ref = a_sim.Reference(cfg["arch"], prog, cfg["init_regs"], smc, stamps)
+                    ref = a_sim.Reference(cfg["arch"], prog, cfg["init_regs"], smc, stamps, init_mem)
                     if ref.ambiguous:
                         raise a_sim.Discard("ambiguous stamp")
                     self.judge_posthoc(run, ref, log, probes)
                 else:
-                    ref = a_sim.Reference(cfg["arch"], prog, cfg["init_regs"], smc)
+                    ref = a_sim.Reference(cfg["arch"], prog, cfg["init_regs"], smc, None, init_mem)
                     if ref.ambiguous:
                         raise a_sim.Discard("repeated state in the reference")
                     run = a_sim.TestRun(self.pid, c2, prog, ref, log, probes)
